@@ -20,13 +20,13 @@ import (
 )
 
 type meshCase struct {
-	Verts     []vec3       `json:"verts"`
-	Faces     [][3]int     `json:"faces"`
-	API       string       `json:"api,omitempty"`
-	Chunk     int          `json:"chunk,omitempty"`      // reader hands out at most this many bytes per Read (0: all)
-	ColorSeed uint32       `json:"color_seed,omitempty"` // seed of the pure colour function
-	Palette   int          `json:"palette,omitempty"`    // number of distinct face colours (material OBJ)
-	Style     uint32       `json:"style,omitempty"`      // seed of the text style (harness-written files)
+	Verts     []vec3   `json:"verts"`
+	Faces     [][3]int `json:"faces"`
+	API       string   `json:"api,omitempty"`
+	Chunk     int      `json:"chunk,omitempty"`      // reader hands out at most this many bytes per Read (0: all)
+	ColorSeed uint32   `json:"color_seed,omitempty"` // seed of the pure colour function
+	Palette   int      `json:"palette,omitempty"`    // number of distinct face colours (material OBJ)
+	Style     uint32   `json:"style,omitempty"`      // seed of the text style (harness-written files)
 }
 
 const maxCoord = 3e38
@@ -368,12 +368,12 @@ func edgeMeshes() []meshCase {
 	return []meshCase{
 		{}, // empty
 		{Verts: []vec3{{0, 0, 0}, {1, 0, 0}, {0, 1, 0}}, Faces: tri},
-		{Verts: []vec3{{0, 0, 0}, {1, 0, 0}, {0, 1, 0}}, Faces: [][3]int{{0, 1, 2}, {0, 2, 1}, {0, 1, 2}}},                        // same face thrice, both orientations
-		{Verts: []vec3{{negZero, 0, negZero}, {1, negZero, 0}, {0, 1, 0}, {0, 0, 0}}, Faces: [][3]int{{0, 1, 2}, {3, 2, 1}}},    // -0 and +0 versions of a vertex
-		{Verts: []vec3{{3e38, -3e38, 3e38}, {-3e38, 3e38, 1e38}, {1e-45, -1e-45, 1e-40}}, Faces: tri},                             // huge and subnormal
-		{Verts: []vec3{{0.1, 1.0 / 3, 16777217}, {7.006492321624085e-46, 7.1e-46, 1e-60}, {1 + 1.0/(1<<24), 2, 3}}, Faces: tri}, // ties, underflow
+		{Verts: []vec3{{0, 0, 0}, {1, 0, 0}, {0, 1, 0}}, Faces: [][3]int{{0, 1, 2}, {0, 2, 1}, {0, 1, 2}}},                            // same face thrice, both orientations
+		{Verts: []vec3{{negZero, 0, negZero}, {1, negZero, 0}, {0, 1, 0}, {0, 0, 0}}, Faces: [][3]int{{0, 1, 2}, {3, 2, 1}}},          // -0 and +0 versions of a vertex
+		{Verts: []vec3{{3e38, -3e38, 3e38}, {-3e38, 3e38, 1e38}, {1e-45, -1e-45, 1e-40}}, Faces: tri},                                 // huge and subnormal
+		{Verts: []vec3{{0.1, 1.0 / 3, 16777217}, {7.006492321624085e-46, 7.1e-46, 1e-60}, {1 + 1.0/(1<<24), 2, 3}}, Faces: tri},       // ties, underflow
 		{Verts: []vec3{{0.1, 0.2, 0.3}, {r32(0.1), r32(0.2), r32(0.3)}, {1, 1, 1}, {2, 0, 0}}, Faces: [][3]int{{0, 2, 3}, {1, 3, 2}}}, // collide after rounding
-		{Verts: []vec3{{1, 2, 3}, {1, 2, 3}, {4, 5, 6}, {7, 8, 9}}, Faces: [][3]int{{0, 2, 3}, {1, 3, 2}, {0, 0, 2}, {1, 1, 1}}},    // duplicated pool entries, degenerate faces
+		{Verts: []vec3{{1, 2, 3}, {1, 2, 3}, {4, 5, 6}, {7, 8, 9}}, Faces: [][3]int{{0, 2, 3}, {1, 3, 2}, {0, 0, 2}, {1, 1, 1}}},      // duplicated pool entries, degenerate faces
 	}
 }
 
